@@ -809,6 +809,9 @@ fn run_c19(ctx: &mut Ctx) {
         ctx.executions += n;
         ctx.nontrivial_direct += n;
         per_pair.insert(g.iter().map(|i| CALL_NAMES[*i]).collect::<Vec<_>>().join(" || "), json!(n));
+        if ctx.samples.len() < 4 {
+            ctx.samples.push(json!({"kind":"schedule-group","threads":g.iter().map(|i| CALL_NAMES[*i]).collect::<Vec<_>>(),"preemption_bound":b,"schedules_explored":n,"all_results_equal_sequential_baseline":mm.is_none()}));
+        }
         ctx.guard("loom-pairs");
         if let Some(m) = mm {
             ctx.violation(
